@@ -32,9 +32,13 @@ impl Cfg {
 thread_local! {
     static PANIC_MSG: RefCell<Option<String>> = RefCell::new(None);
 }
+/// last panic message of any thread (for the machinery-error report of main when a panic escapes an engine)
+pub static LAST_PANIC: std::sync::Mutex<Option<String>> = std::sync::Mutex::new(None);
 pub fn install_quiet_panic_hook() {
     std::panic::set_hook(Box::new(|info| {
         let msg = format!("{}", info);
+        if std::env::var("VERIF_LOUD_PANIC").is_ok() { eprintln!("[panic] {}", msg); }
+        if let Ok(mut l) = LAST_PANIC.lock() { *l = Some(msg.clone()); }
         PANIC_MSG.with(|m| *m.borrow_mut() = Some(msg));
     }));
 }
